@@ -1,4 +1,5 @@
 import Driver.Pure
+import Driver.Read
 
 open Drv
 
@@ -6,6 +7,7 @@ def dispatch (line : String) : Res :=
   match (line.splitOn " ").filter (· ≠ "") with
   | "mask" :: args => runMask args
   | "win" :: args => runWin args
+  | "read" :: args => runRead args
   | _ => bad "unknown-suite"
 
 partial def loop (hin hout : IO.FS.Stream) : IO Unit := do
